@@ -215,6 +215,15 @@ DER_TABLE = [
         ("member longer than the sequence", H("3003020205"), False),
         ("trailing data", H("300302010500"), False),
     ]),
+    ("DerSequence().decode(data, strict=True)", [
+        ("minimal integers", H("3006020105020106"), True),
+        ("128 with its leading zero", H("300402020080"), True),
+        ("a member INTEGER with a redundant leading zero", H("30040202007f"), False),
+        ("a member INTEGER 00 01", H("300402020001"), False),
+        ("an empty member INTEGER", H("30020200"), False),
+        # (02 02 FF 80, a negative INTEGER with a redundant FF octet, is accepted under strict=True: X.690 8.3.2 forbids it,
+        #  the property does not list it and no caller accepts a negative value - observed, not armed)
+    ]),
     ("DerSequence().decode(data, nr_elements=2)", [
         ("two members", H("3006020105020106"), True),
         ("one member", H("3003020105"), False),
@@ -709,3 +718,49 @@ def pem_roundtrip_rows(check, repo):
     check.ob("K-pw", "K-pw|pem.roundtrip", not wrong, mod.path, fn.lineno,
              extracted=("%d of %d rows differ: " % (len(wrong), n) + "; ".join(wrong[:3])) if wrong else "%d rows: decode(encode(x)) == x with and without a passphrase, for lengths around the cipher block and the base64 line" % n,
              expected="PEM armour (RFC 1421 / OpenSSL legacy encryption) round-trips: PKCS#7 padding is always added before encryption, key derivation agrees on both sides")
+
+
+def x509_shape_rows(check, repo):
+    """_extract_subject_public_key_info on certificate-shaped DER (the real decoder interpreted): the
+    subjectPublicKeyInfo is member 5 of a v1 tbsCertificate and member 6 when an explicit [0] version is present; a
+    tbsCertificate that ends before that member is a ValueError (the import cascade of RSA / DSA / ECC only catches
+    ValueError), whatever its member count inside the 6..10 window the decoder admits."""
+    from ..spec import der
+    PK = "Crypto.PublicKey"
+    mod = repo.module(PK)
+    fn = repo.func(mod, "_extract_subject_public_key_info")
+    spki = der.seq(der.seq(der.oid("1.2.840.113549.1.1.1"), der.null()), der.bitstring(b"KEY"))
+    filler = [der.integer(7), der.seq(der.oid("1.2.3")), der.seq(), der.seq(), der.seq()]          # serial .. subject
+    wrong = []
+    rows = []
+    for version in (None, 1, 2, 0, 3):
+        for count in (5, 6, 7, 8, 10, 11):
+            members = ([] if version is None else [der.explicit(0, der.integer(version))]) + filler
+            idx = 5 if version is None else 6
+            while len(members) < count:
+                members.append(spki if len(members) == idx else der.seq(der.integer(len(members))))
+            members = members[:count]
+            cert = der.seq(der.seq(*members), der.seq(der.oid("1.2.3")), der.bitstring(b"SIG"))
+            ok = 6 <= count <= 10 and count > idx
+            # v3 (value 2) and v1 (no version member) must be read; other explicit values may be refused, with ValueError
+            rows.append((version, count, cert, (spki if version in (None, 2) else "either") if ok else "ValueError"))
+    for version, count, cert, want in rows:
+        it = Interp(repo, max_depth=12, budget=4000000)
+        res = it.run(mod, fn, {"x509_certificate": cert})
+        rets = res.returns()
+        if want == "either":
+            want = spki if rets and not res.raises() else "ValueError"
+        if want == "ValueError":
+            kill = set(res.raise_classes())
+            bad = [c for c in kill if "ValueError" not in it.exc_mro(c, mod)]
+            if rets or bad or not kill:
+                wrong.append("version %s, %d members: %s" % ("absent" if version is None else "v%d" % (version + 1), count,
+                                                              "accepted" if rets and not kill else "raises " + ",".join(sorted(bad or kill))))
+        else:
+            got = rets[0].value if len(rets) == 1 and not res.raises() else None
+            if not isinstance(got, (bytes, bytearray)) or bytes(got) != want:
+                wrong.append("version %s, %d members: %s instead of the subjectPublicKeyInfo" % (
+                    "absent" if version is None else "v%d" % (version + 1), count, "raises " + ",".join(res.raise_classes()) if got is None else "another member"))
+    check.ob("G", "G|x509.tbs.shape", not wrong, mod.path, fn.lineno,
+             extracted=("%d of %d shapes differ: " % (len(wrong), len(rows)) + "; ".join(wrong[:3])) if wrong else "%d certificate shapes (version absent / v1..v4, 5..11 tbsCertificate members): the key is found, or ValueError" % len(rows),
+             expected="RFC 5280 4.1: subjectPublicKeyInfo is the 6th member after the optional [0] version; a shorter tbsCertificate raises ValueError, never IndexError")
